@@ -2,9 +2,9 @@
 import common
 from common import cN, cZ, cnat, cbool, clist, copt, cpair
 
-PROOF_FILES = ['Proofs/Serial.v']
+PROOF_FILES = ['Proofs/Serial.v', 'Proofs/Msgpack.v']
 ASSUMPTIONS = [
-    'msgpack-python packb/unpackb are a correct codec pair for the wire format (the Coq encoder is compared byte-for-byte with packb on every run; the decoder is not modelled)',
+    'msgpack-python packb/unpackb are a correct codec pair for the wire format (the Coq encoder is compared byte-for-byte with packb, and the Coq decoder with unpackb + ext_hook on the real bytes, their strict prefixes and a trailing byte, on every run)',
     'numpy tobytes("C") / frombuffer / reshape / dtype.name; arrays are compared by dtype name, shape and C-order bytes in native byte order',
     'error paths are compared as "/"-joined strings; generated keys contain no "/"',
 ]
@@ -13,7 +13,7 @@ DTYPES = ['bool', 'int8', 'uint8', 'int16', 'uint16', 'int32', 'uint32', 'int64'
 SHAPES = [[], [0], [0, 3], [1], [2], [3], [5], [2, 2], [2, 3], [3, 1, 2], [2, 1, 2, 2], [7], [11], [3, 4], [13, 1], [1, 1, 1, 1, 1, 1, 1, 1, 1, 1, 1, 2], [25]]
 LAYOUTS = ['C', 'C', 'C', 'F', 'strided', 'neg', 'bcast', 'big']
 KEYS = ['a', 'b', 'c', 'params', 'kernel', 'bias', '0', '1', 'x', 'é', '']
-HEADER = 'From Flaxm Require Import Lib.Harness Model.Flatten Model.Serial.\n'
+HEADER = 'From Flaxm Require Import Lib.Harness Model.Flatten Model.Serial Model.Msgpack.\n'
 NTFIELDS = {'NT1': ['a', 'b'], 'NT2': ['x'], 'NT3': ['a', 'c']}
 DCFIELDS = {'DC1': ['p', 'q'], 'DC2': ['w'], 'DC3': ['p', 'r']}
 TYCODE = {'NT1': 1, 'NT2': 2, 'NT3': 3, 'DC1': 11, 'DC2': 12, 'DC3': 13}
@@ -123,6 +123,14 @@ def csd(c):
   return '(SLeaf %s)' % cleaf(c)
 
 
+def collect_isz(c, acc):
+  if c['k'] == 'dict':
+    for _, v in c['kids']:
+      collect_isz(v, acc)
+  elif c['k'] in ('arr', 'npscalar'):
+    acc[c['dtype']] = c['itemsize']
+
+
 def is_sd(c):
   if c['k'] == 'dict':
     return all(is_sd(v) for _, v in c['kids'])
@@ -205,6 +213,8 @@ def run(chk):
   kinds = {}
   coq_cases = []
   n_mut = {'ok': 0, 'ELength': 0, 'EMissingKeys': 0, 'EFields': 0, 'EOther': 0}
+  isz = {}
+  n_dec = [0, 0]
   for i, (c, o) in enumerate(zip(cases, obs)):
     inp = o['input']
     acc = count_kinds(inp, {})
@@ -271,20 +281,39 @@ def run(chk):
         e = '(Ok %s)' % cptree(r['ok'])
       muts.append(cpair(csd(r['sd']), e))
     bys = []
+    decs = []
     for th, r in o['by_threshold'].items():
       if 'ok' in r and r['ok']['bytes'] is not None and r['ok']['nbytes'] < 3000:
         bys.append(cpair(cN(int(th)), hexbytes(r['ok']['bytes'])))
+        rb = r['ok'].get('restore_of_bytes')
+        if rb is not None and is_sd(rb):
+          collect_isz(rb, isz)
+          decs.append(cpair(hexbytes(r['ok']['bytes']), csd(rb), clist([cpair(cnat(k), cbool(x)) for k, x in r['ok']['prefix']]), cbool(r['ok']['extra'])))
+          n_dec[0] += 1
+          n_dec[1] += len(r['ok']['prefix']) + 1
+          if not all(x for _, x in r['ok']['prefix']) or not r['ok']['extra']:
+            chk.violation('oracle', 'msgpack_restore accepted a strict prefix of to_bytes(t) or bytes with trailing data', {'desc': c['desc'], 'threshold': th,
+                          'prefix': r['ok']['prefix'], 'extra_raises': r['ok']['extra']})
+        elif rb is not None:
+          chk.violation('correspondence', 'msgpack_restore(to_bytes(t)) is not a string-keyed dict tree', {'desc': c['desc'], 'restored': rb})
     coq_cases.append((i, cpair(cptree(strip_kind(inp)), csd(o['sd']), clist(muts), clist(bys),
-                               clist([cN(int(th)) for th in o['by_threshold']]))))
+                               clist([cN(int(th)) for th in o['by_threshold']]), clist(decs))))
   hdr = HEADER + '''
-Definition chk (c : ptree * sd * list (sd * res ptree) * list (N * list N) * list N) : bool :=
-  let '(t, s, muts, bys, ths) := c in
+Definition isz : key -> N := isz_table %s.
+Definition is_none {A} (o : option A) : bool := match o with None => true | Some _ => false end.
+Definition chk (c : ptree * sd * list (sd * res ptree) * list (N * list N) * list N * list (list N * sd * list (nat * bool) * bool)) : bool :=
+  let '(t, s, muts, bys, ths, decs) := c in
   sd_beq (to_sd t) s &&
   res_beq (from_state_dict t s) (Ok t) &&
   forallb (fun m => res_beq (from_state_dict t (fst m)) (snd m)) muts &&
   forallb (fun b => list_beq N.eqb (to_bytes (fst b) t) (snd b)) bys &&
-  forallb (fun th => option_beq sd_beq (unchunk_leaves (chunk_leaves th s)) (Some s)) ths.
-'''
+  forallb (fun th => option_beq sd_beq (unchunk_leaves (chunk_leaves th s)) (Some s)) ths &&
+  forallb (fun d => let '(bs, r, pre, extra) := d in
+             option_beq sd_beq (msgpack_restore isz bs) (Some r) &&
+             res_beq (from_bytes isz t bs) (Ok t) &&
+             forallb (fun kx => Bool.eqb (is_none (msgpack_restore isz (firstn (fst kx) bs))) (snd kx)) pre &&
+             Bool.eqb (is_none (msgpack_restore isz (bs ++ [192%%N]))) extra) decs.
+''' % clist([cpair(ckey(k), cN(v)) for k, v in sorted(isz.items())])
   bad = common.coq_mismatches('c10', hdr, [x[1] for x in coq_cases], 'chk', shard=60, timeout=900)
   for j in bad[:8]:
     i = coq_cases[j][0]
@@ -302,11 +331,12 @@ Definition chk (c : ptree * sd * list (sd * res ptree) * list (N * list N) * lis
           chk.violation('oracle', 'TrainState does not round-trip through to_bytes/from_bytes', {'case': c, 'threshold': th, 'observed': x})
   chk.notes['leaf_and_container_kinds_generated'] = kinds
   chk.notes['mutation_outcomes'] = n_mut
+  chk.notes['byte_strings_decoded_by_model_and_flax'] = {'valid': n_dec[0], 'prefixes_and_trailing': n_dec[1]}
   chk.cov['rule'] = ('random pytrees (depth<=4) over dict/FrozenDict/list/tuple/2 namedtuples/2 struct dataclasses + TrainState with optax states; leaves: numpy and '
                      'jax arrays of %d dtypes (incl. bfloat16, float8, int4), shapes incl. rank 0 and empty, layouts C/F/strided/negative stride/broadcast/big-endian, python '
                      'scalars at msgpack format boundaries, str/bytes/None/complex; 3 chunk thresholds per tree from {1,2,3,7,9,16,64,2^30}; 3 state mutations per tree '
                      '(drop/add/rename/reverse a key). non-trivial = >=2 container kinds and an array leaf; distinct by canonical JSON hash' % len(DTYPES))
-  chk.cov['trusted_base'] = ['Coq 8.16.1 kernel + vm_compute', 'harness/c10.py + impl_c10.py', 'harness/jaxcompat.py', 'msgpack-python decoder (unpackb)']
+  chk.cov['trusted_base'] = ['Coq 8.16.1 kernel + vm_compute', 'harness/c10.py + impl_c10.py', 'harness/jaxcompat.py', 'msgpack-python (packb / unpackb): modelled by Model/Serial.encode and Model/Msgpack.decode, tied by the byte-level correspondence']
 
 
 def gen_params(rng, seedbox):
